@@ -13,7 +13,7 @@ def run(ctx):
     else:
         rows, r = klog.generate(ctx, "KLog_gen32.cfg" if ctx.tier == "quick" else "KLog_gen32t.cfg", "klog_gen32")
         core.write_ndjson(inp, rows)
-        stride = 1
+        stride = 3 if ctx.tier == "quick" else 1
     rc, o = ctx.go_test("./c32/", run="TestReplay", env={"VERIF_CASES": inp, "VERIF_STRIDE": stride}, timeout=2400)
     res = ctx.go_results(o)
     stats = [r for r in res if r.get("kind") == "stat"]
@@ -30,7 +30,7 @@ def run(ctx):
     ctx.cov["rule"] = ("every history of KLog.tla without compaction (plain producer + 2 transactional producers, <=%d batches of 1-2 records, commit/abort markers, transactions overlapping in every order), %s, replayed on kfake with raw"
                        " InitProducerID / AddPartitionsToTxn / Produce / EndTxn requests; after each append an incremental fetch session over two partitions; at the end a retry of the last idempotent batch and a fetch at every offset x"
                        " isolation level, whole and cut to one batch by PartitionMaxBytes, the response run through a reference consumer. non-trivial = fetch whose range overlaps an aborted transaction"
-                       % (4 if ctx.tier == "quick" else 5, "every second one by seed" if stride == 2 else "all of them"))
+                       % (4 if ctx.tier == "quick" else 5, "a pseudo-random third of them by seed" if stride == 3 else "all of them"))
     ctx.notes["runner"] = st
     ctx.sample({"log": cases[len(cases) // 2]["log"], "lso": cases[len(cases) // 2]["lso"], "hw": cases[len(cases) // 2]["hw"]})
     ctx.assumptions += ["transaction timeouts and DeleteRecords are not part of the enumerated histories"]
